@@ -226,6 +226,7 @@ func PortionOfText(s string) *big.Rat {
 }
 
 var acctRe = regexp.MustCompile(`^[a-zA-Z0-9_-]+(:[a-zA-Z0-9_-]+)*$`)
+var zeroDenRe = regexp.MustCompile(`^[0-9]+ ?/ ?0+$`)
 var intRe = regexp.MustCompile(`^[+-]?[0-9]+$`)
 
 func parseInt(s string) *big.Int {
@@ -374,6 +375,9 @@ func (m *machine) eval(e gen.Expr) (Value, *merr) {
 	case *gen.PortionLit:
 		r := PortionOfText(e.Text)
 		if r == nil {
+			if zeroDenRe.MatchString(e.Text) {
+				return nil, fail(EBadPortion) // n/0: an invalid portion
+			}
 			return nil, fail(EUnspecified)
 		}
 		return VPortion{r}, nil
@@ -856,6 +860,9 @@ func (m *machine) allot(total *big.Int, as []gen.Allot) ([]*big.Int, *merr) {
 		case *gen.PortionLit:
 			r := PortionOfText(a.Text)
 			if r == nil {
+				if zeroDenRe.MatchString(a.Text) {
+					return nil, fail(EBadPortion)
+				}
 				return nil, fail(EUnspecified)
 			}
 			ps[i] = r
